@@ -35,7 +35,11 @@ def assertion_leaf():
     )
     lit = st.tuples(lits, st.booleans()).map(lambda t: ['lit', t[0], t[1]])
     cls_chars = st.lists(st.sampled_from(list('?*+{}ab-')), min_size=1, max_size=3, unique=True)
+    esc_chars = st.lists(st.sampled_from(list('\\^[]-/')), min_size=2, max_size=4, unique=True)
     cls = st.one_of(
+        esc_chars.map(lambda xs: ['cls', ['from', [['c', x] for x in xs]]]),
+        esc_chars.map(lambda xs: ['cls', ['butfrom', [['c', x] for x in xs]]]),
+        st.just(['cls', ['named', 'AnyDigit']]), st.just(['cls', ['between', ['c', '0'], ['c', '3']]]),
         cls_chars.map(lambda xs: ['cls', ['from', [['c', x] for x in xs]]]),
         cls_chars.map(lambda xs: ['cls', ['butfrom', [['c', x] for x in xs]]]),
         st.sampled_from([['cls', ['between', ['c', '*'], ['c', '?']]], ['cls', ['named', 'AnyPunctuation']],
@@ -47,7 +51,9 @@ def assertion_leaf():
 
 def assertion_tree():
     feats = ['cat', 'alt', 'q', 'grp', 'cap', 'look', 'enc']
-    return dsl.tree_strategy(feats, max_leaves=4, leaf=assertion_leaf())
+    flat = st.lists(st.one_of(assertion_leaf(), assertion_leaf(), dsl.tree_strategy(['q'], max_leaves=1, leaf=assertion_leaf())),
+                    min_size=3, max_size=6).map(lambda xs: ['cat', 'class', xs])      # flat sequences: class, quantified thing, class ...
+    return st.one_of(dsl.tree_strategy(feats, max_leaves=4, leaf=assertion_leaf()), dsl.tree_strategy(feats, max_leaves=4, leaf=assertion_leaf()), flat)
 
 
 def check_case(case, ctx):
